@@ -432,6 +432,47 @@ func (c *Ctx) orderFramesRule(e *Eff) int {
 				continue
 			}
 			loops := naturalLoops(fn)
+			// a per-frame step helper: fetches the frame named by its parameters, transforms it and
+			// appends it, all in one call (encodeFrame(enc, src, dst, i)). Checked here once; at every
+			// call site it stands for one GetFrame and one AddFrame.
+			if len(gets[fn]) == 1 && len(adds[fn]) == 1 {
+				g, a := gets[fn][0], adds[fn][0]
+				pi, pj, pk := paramIndex(fn, g.idx), paramIndex(fn, g.pd), paramIndex(fn, a.pd)
+				ei := errorResultIndex(fn)
+				sites := callersOf(fn)
+				stepOK := innermostLoopOf(loops, g.site.Block()) == nil && innermostLoopOf(loops, a.site.Block()) == nil &&
+					pi >= 0 && pj >= 0 && pk >= 0 && pj != pk && ei >= 0 && len(sites) > 0 && !lifted[g.site] &&
+					instrDominates(g.site, a.site) && sliceWithAllocCalls(a.data)[g.val] &&
+					a.errVal != nil && a.errVal.Referrers() != nil && len(*a.errVal.Referrers()) > 0
+				if stepOK {
+					for _, b := range fn.Blocks {
+						if len(b.Instrs) == 0 {
+							continue
+						}
+						if ret, ok := b.Instrs[len(b.Instrs)-1].(*ssa.Return); ok && isNilConst(ret.Results[ei]) && !instrDominates(a.site, ret) {
+							stepOK = false // can succeed without appending
+						}
+					}
+				}
+				if stepOK {
+					lifted[g.site], lifted[a.site] = true, true
+					nLoops++
+					c.add("ORDER-FRAMES", fn, "per-frame step helper around "+addrExpr(g.pd)+".GetFrame", report.Discharged, c.P.Pos(g.site.Pos()),
+						fmt.Sprintf("fetches the frame named by its parameters, appends exactly one frame derived from it on every nil-error return: the loop obligations are checked at its %d call site(s)", len(sites)))
+					for _, cs := range sites {
+						caller := cs.Parent()
+						args := cs.Common().Args
+						if pi >= len(args) || pj >= len(args) || pk >= len(args) || cs.Value() == nil {
+							continue
+						}
+						gets[caller] = append(gets[caller], frameGet{site: cs, fn: caller, idx: args[pi], pd: args[pj], val: cs.Value(), via: load.FuncName(fn)})
+						adds[caller] = append(adds[caller], frameAdd{site: cs, fn: caller, pd: args[pk], data: cs.Value(), errVal: cs.Value(), via: load.FuncName(fn)})
+					}
+					delete(gets, fn)
+					delete(adds, fn)
+					continue
+				}
+			}
 			var keepG []frameGet
 			for _, g := range gets[fn] {
 				pi, pj := paramIndex(fn, g.idx), paramIndex(fn, g.pd)
